@@ -50,6 +50,18 @@ let parse_ops (t : toks) : op list =
         | "upe" -> let x = next_z t in push (IvUncheckedEmplace (tg, x))
         | "ivc" -> push (IvCopyConstruct tg)
         | "ivm" -> push (IvMoveConstruct tg)
+        | "iva" -> push (IvCopyAssign tg)
+        | "ivx" -> push (IvMoveAssign tg)
+        | "isc" -> push (IvSelfCopyAssign tg)
+        | "ism" -> push (IvSelfMoveAssign tg)
+        | "sir" -> let x = next_z t in push (SetInsertRv (tg, x))
+        | "sic" -> let x = next_z t in push (SetInsertCr (tg, x))
+        | "sem" -> let x = next_z t in push (SetEmplace (tg, x))
+        | "sek" -> let x = next_z t in push (SetEraseKey (tg, x))
+        | "fir" -> let x = next_z t in push (FlatInsertRv (tg, x))
+        | "fic" -> let x = next_z t in push (FlatInsertCr (tg, x))
+        | "fem" -> let x = next_z t in push (FlatEmplace (tg, x))
+        | "fek" -> let x = next_z t in push (FlatEraseKey (tg, x))
         | _ -> raise Not_found))
   done;
   List.rev !ops
@@ -119,6 +131,129 @@ let flavour_of family =
   let iv = String.sub family 0 3 = "iv_" in
   (fl <> "c", iv)
 
+
+(* ---- owners of one object: variant / optional / expected / inplace_function ------------------- *)
+let parse_oops (t : toks) : oop list =
+  let k = next_int t in
+  let ops = ref [] in
+  for _ = 1 to k do
+    let o = next_str t in
+    let push x = ops := x :: !ops in
+    (match o with
+     | "vsw" -> push VSwap
+     | "fsw" -> push FSwap
+     | _ ->
+       let tg = b t in
+       (match o with
+        | "vem" -> let j = next_nat t in let x = next_z t in push (VEmplace (tg, j, x))
+        | "var" -> let j = next_nat t in let x = next_z t in push (VAssignRv (tg, j, x))
+        | "vac" -> let j = next_nat t in let x = next_z t in push (VAssignCr (tg, j, x))
+        | "vav" -> let j = next_nat t in let x = next_z t in push (VAssignConv (tg, j, x))
+        | "vat" -> let j = next_nat t in let x = next_z t in push (VAssignTmp (tg, j, x))
+        | "vca" -> push (VCopyAssign tg)
+        | "vma" -> push (VMoveAssign tg)
+        | "vsc" -> push (VSelfCopyAssign tg)
+        | "vsm" -> push (VSelfMoveAssign tg)
+        | "vcc" -> push (VCopyConstruct tg)
+        | "vmc" -> push (VMoveConstruct tg)
+        | "vss" -> push (VSelfSwap tg)
+        | "fas" -> let j = next_nat t in let x = next_z t in push (FAssign (tg, j, x))
+        | "fan" -> push (FAssignNull tg)
+        | "fca" -> push (FCopyAssign tg)
+        | "fma" -> push (FMoveAssign tg)
+        | "fsc" -> push (FSelfCopyAssign tg)
+        | "fsm" -> push (FSelfMoveAssign tg)
+        | "fcc" -> push (FCopyConstruct tg)
+        | "fmc" -> push (FMoveConstruct tg)
+        | "fss" -> push (FSelfSwap tg)
+        | "fiv" -> push (FInvoke tg)
+        | _ -> raise Not_found))
+  done;
+  List.rev !ops
+
+(* family = (var|opt|exp|fun)_(cm|m|c): which alternatives are instrumented class types *)
+let own_family family =
+  let kind = String.sub family 0 3 in
+  let fl = String.sub family 4 (String.length family - 4) in
+  let trk = match kind with
+    | "var" -> [0; 2]       (* variant<TA, int, TB> *)
+    | "opt" -> [1]          (* optional<T> = variant<nullopt_t, T> *)
+    | "exp" -> [0; 1]       (* expected<T, E> = variant<T, E> *)
+    | "fun" -> [1; 2]       (* inplace_function holding C1 / C2, 0 = empty *)
+    | _ -> raise Not_found in
+  (fl <> "c", trk_of (List.map nat_of_int trk), kind = "fun")
+
+let run_own op t =
+  let family = next_str t in
+  let ops = parse_oops t in
+  let (fl, trk, fn) = own_family family in
+  let ((steps, fin), (wf, alive)) = own_run_case fl trk fn ops in
+  if op = "omon" then begin
+    let stopped = List.exists (fun r -> not r.r_done) steps in
+    let selfs = own_self_checks fl trk fn ops in
+    let st = storage_wf (own_trace fl trk fn ops) in
+    let m = Printf.sprintf "%swf %s alive %d st %s self%s" (if stopped then "contract " else "") (b2s wf) (int_of_nat alive) (b2s st)
+        (String.concat "" (List.map (fun x -> " " ^ b2s x) selfs)) in
+    let sp = match own_spec_verdict ops with
+      | None -> "na"
+      | Some (((w, a), ss), st') ->
+        Printf.sprintf "wf %s alive %d st %s self%s" (b2s w) (int_of_nat a) (b2s st') (String.concat "" (List.map (fun x -> " " ^ b2s x) ss)) in
+    (m, sp)
+  end else begin
+    let raw = op = "orawhist" in
+    let body = String.concat " " (List.map (render_step raw) steps) in
+    let finr = Printf.sprintf "; end / %s tmp %d w %s" (if raw then render_raw fin.r_raw else render_proj fin.r_toks)
+        (int_of_nat fin.r_tmp) (b2s fin.r_ok) in
+    let m = Printf.sprintf "%s%s%s ; wf %s alive %d" body (if body = "" then "" else " ") finr (b2s wf) (int_of_nat alive) in
+    (m, "na")
+  end
+
+
+(* ---- pair / tuple ------------------------------------------------------------------------------ *)
+let parse_aops (t : toks) : aop list =
+  let k = next_int t in
+  let ops = ref [] in
+  for _ = 1 to k do
+    let o = next_str t in
+    let push x = ops := x :: !ops in
+    (match o with
+     | "asw" -> push ASwap
+     | _ ->
+       let tg = b t in
+       (match o with
+        | "aca" -> push (ACopyAssign tg)
+        | "ama" -> push (AMoveAssign tg)
+        | "asc" -> push (ASelfCopyAssign tg)
+        | "asm" -> push (ASelfMoveAssign tg)
+        | "acc" -> push (ACopyConstruct tg)
+        | "amc" -> push (AMoveConstruct tg)
+        | "ass" -> push (ASelfSwap tg)
+        | _ -> raise Not_found))
+  done;
+  List.rev !ops
+
+let run_agg op t =
+  let family = next_str t in
+  let ops = parse_aops t in
+  let fl = String.sub family 3 (String.length family - 3) <> "c" in
+  let k = nat_of_int (if String.sub family 0 2 = "pr" then 2 else 3) in
+  let ((steps, fin), (wf, alive)) = agg_run_case fl k ops in
+  if op = "amon" then begin
+    let selfs = agg_self_checks fl k ops in
+    let m = Printf.sprintf "wf %s alive %d self%s" (b2s wf) (int_of_nat alive)
+        (String.concat "" (List.map (fun x -> " " ^ b2s x) selfs)) in
+    let sp = Printf.sprintf "wf 1 alive 0 self%s"
+        (String.concat "" (List.init (int_of_nat (agg_count_self ops)) (fun _ -> " 1"))) in
+    (m, sp)
+  end else begin
+    let raw = op = "arawhist" in
+    let body = String.concat " " (List.map (render_step raw) steps) in
+    let finr = Printf.sprintf "; end / %s tmp %d w %s" (if raw then render_raw fin.r_raw else render_proj fin.r_toks)
+        (int_of_nat fin.r_tmp) (b2s fin.r_ok) in
+    let m = Printf.sprintf "%s%s%s ; wf %s alive %d" body (if body = "" then "" else " ") finr (b2s wf) (int_of_nat alive) in
+    (m, "na")
+  end
+
 let run_case op t =
   match op with
   | "hist" | "rawhist" | "mon" ->
@@ -145,6 +280,8 @@ let run_case op t =
       let m = Printf.sprintf "%s%s%s ; wf %s alive %d" body (if body = "" then "" else " ") finr (b2s wf) (int_of_nat alive) in
       (m, "na")
     end
+  | "ohist" | "orawhist" | "omon" -> run_own op t
+  | "ahist" | "arawhist" | "amon" -> run_agg op t
   | _ -> raise Not_found
 
 let () = main run_case
